@@ -4,3 +4,5 @@ pub mod env;
 pub mod prog;
 pub mod types;
 pub mod values;
+pub mod policy;
+pub mod text;
